@@ -162,6 +162,152 @@ def gen_shims(ifaces):
     return "\n".join(L) + "\n", table
 
 
+FHELP = r"""
+module c18_help
+  use iso_c_binding
+  implicit none
+contains
+  function fstr(p) result(s)
+    type(c_ptr), intent(in) :: p
+    character(len=:), allocatable :: s
+    character(kind=c_char), pointer :: a(:)
+    integer :: n, i
+    interface
+      function c18_strlen(q) bind(C, name='strlen') result(l)
+        import
+        type(c_ptr), value :: q
+        integer(c_size_t) :: l
+      end function c18_strlen
+    end interface
+    n = int(c18_strlen(p))
+    call c_f_pointer(p, a, [n])
+    allocate(character(len=n) :: s)
+    do i = 1, n
+      s(i:i) = a(i)
+    end do
+  end function fstr
+  function cbv(T) bind(C) result(r)
+    real(c_double), value, intent(in) :: T
+    real(c_double) :: r
+    r = 2.75d0 + 0.25d0 * T
+  end function cbv
+  function cbr(T) bind(C) result(r)
+    real(c_double), intent(in) :: T
+    real(c_double) :: r
+    r = 2.75d0 + 0.25d0 * T
+  end function cbr
+end module c18_help
+"""
+
+
+def fortran_frontend():
+    """gcc can compile free-form Fortran when the f951 front end and libgfortran are installed (there is no gfortran driver in the image)"""
+    import tempfile, shutil
+    d = tempfile.mkdtemp(prefix="masa-verif-f-", dir=os.environ.get("VERIF_SCRATCH") or ("/dev/shm" if os.path.isdir("/dev/shm") else None))
+    try:
+        open(os.path.join(d, "t.f90"), "w").write("program t\n use iso_c_binding\n real(c_double) :: x\n x = 1.5d0\n if (x < 0) print *, x\nend program t\n")
+        r = vbuild.run(["gcc", "-c", os.path.join(d, "t.f90"), "-o", os.path.join(d, "t.o")], cwd=d)
+        if r.returncode != 0:
+            return False
+        r = vbuild.run(["gcc", os.path.join(d, "t.o"), "-lgfortran", "-o", os.path.join(d, "t")], cwd=d)
+        return r.returncode == 0 and vbuild.run([os.path.join(d, "t")]).returncode == 0
+    finally:
+        shutil.rmtree(d, ignore_errors=True)
+
+
+def gen_fshims(ifaces, f90_text):
+    """Fortran source: one bind(C) function shim_<k>(d, iv, sv, arr, n) per interface, written the way a Fortran user calls the module
+    (`use masa`; the character wrappers of the module where they exist, the bind(C) interface name otherwise), plus the C table."""
+    wrappers = set(m.group(2).lower() for m in re.finditer(r"^\s*(?:real\s*\(\s*c_double\s*\)\s*|integer\s*\(\s*c_int\s*\)\s*)?(subroutine|function)\s+(\w+)\s*\([^)]*\)\s*$", f90_text, re.I | re.M))
+    F = [FHELP]
+    table = []
+    for k, it in enumerate(ifaces):
+        via_wrapper = it["fname"].lower().endswith("_passthrough") and it["sym"].lower() in wrappers
+        callee = it["sym"] if via_wrapper else it["fname"]
+        call, nd, ni, ns, ok = [], 0, 0, 0, True
+        for (name, cls, ftype) in it["args"]:
+            if cls == "d":
+                nd += 1; call.append("d(%d)" % nd)
+            elif cls == "i":
+                ni += 1; call.append("iv(%d)" % ni)
+            elif cls == "pc":
+                ns += 1; call.append("fstr(sv(%d))" % ns if via_wrapper else "fstr(sv(%d))//C_NULL_CHAR" % ns)
+            elif cls == "pD":
+                call.append("arr(1:256)")
+            elif cls == "pI":
+                call.append("n")
+            elif cls == "pR":
+                call.append("arr(1)")
+            elif cls == "F":
+                call.append("cbv")
+            elif cls == "G":
+                call.append("cbr")
+            else:
+                ok = False
+        if not ok:
+            continue
+        L = ["function fshim_%d(d, iv, sv, arr, n) bind(C, name='shim_%d') result(r)" % (k, k), "  use iso_c_binding", "  use masa", "  use c18_help", "  implicit none",
+             "  real(c_double) :: d(*)", "  integer(c_int) :: iv(*)", "  type(c_ptr) :: sv(*)", "  real(c_double) :: arr(*)", "  integer(c_int) :: n", "  real(c_double) :: r", "  r = 0"]
+        expr = "%s(%s)" % (callee, ", &\n      ".join(call))
+        if it["result"] == "void":
+            L.append("  call " + expr)
+        else:
+            L.append("  r = real(" + expr + ", c_double)")
+        L.append("end function fshim_%d" % k)
+        F.append("\n".join(L) + "\n")
+        table.append((k, it, callee))
+    C = ["typedef double (*shim_fn)(const double*, const int*, const char* const*, double*, int*);"]
+    for k, _, _ in table:
+        C.append("extern double shim_%d(const double*, const int*, const char* const*, double*, int*);" % k)
+    C.append("shim_fn SHIMS[] = {%s};" % ", ".join("shim_%d" % k for k, _, _ in table))
+    C.append('const char* SHIM_SYMS[] = {%s};' % ", ".join('"%s"' % it["sym"] for _, it, _ in table))
+    C.append('const char* SHIM_ABI[] = {%s};' % ", ".join('"%s"' % abi_string(it["result"], [a[1] for a in it["args"]]) for _, it, _ in table))
+    C.append("int N_SHIMS = %d;" % len(table))
+    return "\n".join(F), "\n".join(C) + "\n", table
+
+
+def fortran_layer(rep, b, gen, ifaces, f90_text):
+    """layer 3: the tree's masa.f90 compiled by the Fortran front end, every interface called from Fortran code, same comparisons as layer 2"""
+    info = {"frontend": fortran_frontend()}
+    if not info["frontend"]:
+        info["skipped"] = "gcc has no Fortran front end (f951/libgfortran) in this environment"
+        return info
+    fd = os.path.join(b.dir, "f90"); os.makedirs(fd, exist_ok=True)
+    r = vbuild.run(["gcc", "-c", "-O0", "-J", fd, os.path.join(b.src, "masa.f90"), "-o", os.path.join(fd, "masa_mod.o")], cwd=fd)
+    if r.returncode != 0:
+        rep.violation("src/masa.f90 does not compile with the Fortran front end: " + " ".join(r.stdout.split())[-400:], {"engine": "c18", "kind": "f90-compile"})
+        return info
+    fsrc, ctab, table = gen_fshims(ifaces, f90_text)
+    open(os.path.join(fd, "fshim.f90"), "w").write(fsrc)
+    open(os.path.join(fd, "fshim_tab.c"), "w").write(ctab)
+    r = vbuild.run(["gcc", "-c", "-O0", "-w", "-I", fd, "-J", fd, os.path.join(fd, "fshim.f90"), "-o", os.path.join(fd, "fshim.o")], cwd=fd)
+    if r.returncode != 0:
+        # a caller written against the pinned interfaces (positional arguments, the kinds the C ABI implies) no longer compiles against the module
+        msg = " ".join(r.stdout.split())
+        m = re.search(r"fshim_(\d+)", msg)
+        rep.violation("Fortran callers of the module no longer compile (argument kind/rank/count of an interface changed): " + msg[:500], {"engine": "c18", "kind": "f90-caller-compile"})
+        return info
+    r = vbuild.run(["gcc", "-c", "-O0", "-w", os.path.join(fd, "fshim_tab.c"), "-o", os.path.join(fd, "fshim_tab.o")])
+    if r.returncode != 0:
+        sys.stderr.write("fshim table compile failed:\n" + r.stdout[-2000:]); raise SystemExit(2)
+    drv = os.path.join(fd, "c18_drv_f")
+    r = vbuild.run(["g++", "-std=gnu++17", "-O1", "-w", "-I" + b.src, "-I" + gen, os.path.join(VERIF, "src", "c18_driver.cpp"), os.path.join(fd, "fshim_tab.o"), os.path.join(fd, "fshim.o"), os.path.join(fd, "masa_mod.o"), b.lib, "-lgfortran", "-o", drv])
+    if r.returncode != 0:
+        sys.stderr.write("c18 Fortran driver link failed:\n" + r.stdout[-3000:]); raise SystemExit(2)
+    out = os.path.join(fd, "c18f.out")
+    r = subprocess.run([drv, out], stdout=subprocess.PIPE, stderr=subprocess.STDOUT, text=True)
+    if r.returncode != 0:
+        sys.stderr.write("c18 Fortran driver failed rc=%d:\n%s" % (r.returncode, r.stdout[-3000:])); raise SystemExit(2)
+    recs = [json.loads(l) for l in open(out) if l.strip()]
+    tot = [x for x in recs if x["k"] == "totals"][0]
+    for v in recs:
+        if v["k"] == "viol":
+            rep.violation("[compiled Fortran caller] " + v["what"].replace("through its Fortran prototype", "from Fortran code that uses the module"), dict(v, engine="c18", layer="fortran"))
+    info.update({"interfaces_called_from_fortran": len(table), "through_module_wrappers": sorted(c for _, it, c in table if c == it["sym"] and it["fname"] != it["sym"]),
+                 "states": tot["states"], "calls": tot["calls"], "validated": tot["validated"]})
+    return info
+
+
 def check(tier):
     rep = Report("C18", tier)
     b = vbuild.Build("plain").build()
@@ -255,15 +401,17 @@ def check(tier):
         if v["k"] == "viol":
             rep.violation(v["what"], dict(v, engine="c18"))
     unc = sorted(set(x["symbol"] for x in recs if x["k"] == "uncovered"))
+    finfo = fortran_layer(rep, b, gen, ifaces, f90)
     rep.coverage.update({
-        "states": tot["states"], "transitions": tot["calls"], "traces_validated_against_impl": tot["validated"],
+        "states": tot["states"] + finfo.get("states", 0), "transitions": tot["calls"] + finfo.get("calls", 0), "traces_validated_against_impl": tot["validated"] + finfo.get("validated", 0),
+        "compiled_fortran_layer": finfo,
         "obligations_static": obligations, "interfaces_parsed": len(ifaces), "bind_lines": n_bind, "c_definitions": len(defined), "c_declarations_in_masa_h": len(declared),
         "samples": statics[:4] + [x for x in recs if x["k"] == "sample"][:4],
         "executed_layer_uncovered_symbols": unc,
         "rule": "static: every bind(C) interface (ABI class string from the Fortran interoperability rules) vs the compiler-derived ABI class string of the C definition in cmasa.cpp, every extern of masa.h vs nm of the built library, masa.i structure; executed: state = (interface, solution, argument tuple) called through a C shim that declares the symbol only with the Fortran-derived prototype, result/out-arguments/registry observation equal to the C++ <double> call",
         "exhaustive": True,
     })
-    rep.assumptions += ["Fortran 2003 interoperability rules (value <-> by value; no value, arrays, character(*) <-> pointer) applied by the parser; no Fortran compiler or SWIG exists in the image",
+    rep.assumptions += ["Fortran 2003 interoperability rules (value <-> by value; no value, arrays, character(*) <-> pointer) applied by the parser; SWIG does not exist in the image; the compiled-Fortran layer runs when gcc finds its f951 front end and libgfortran (present in this image although there is no gfortran driver) and is reported as skipped otherwise",
                         "SysV x86-64 calling convention for the executed shims"]
     return rep.finish()
 
